@@ -108,9 +108,9 @@ theorem bvsmod_std (I : Interp) {s t r : Term} {w : Nat} (h : Mk.BVSMod s t = .o
     · subst h0
       simp [Mk.BV, Mk.BVExtract, bind, Except.bind, hw] at h
     · exact h0
-  have hz1 : Mk.BV 0 1 = .ok (Term.bvc 0 1) := bv_ok (by decide) (by decide)
-  have ho1 : Mk.BV 1 1 = .ok (Term.bvc 1 1) := bv_ok (by decide) (by decide)
-  have hzm : Mk.BV 0 w = .ok (Term.bvc 0 w) := bvZero_denotes w
+  have hz1 : Mk.BV 0 1 = .ok (Term.bvc 0 1) := bv_ok (by decide) (by decide) (by decide)
+  have ho1 : Mk.BV 1 1 = .ok (Term.bvc 1 1) := bv_ok (by decide) (by decide) (by decide)
+  have hzm : Mk.BV 0 w = .ok (Term.bvc 0 w) := bvZero_denotes w hwpos
   rw [hz1, ho1] at h
   simp only at h
   generalize hmS : Mk.BVExtract s ((w : Int) - 1) (some ((w : Int) - 1)) = rS at h
